@@ -307,3 +307,13 @@ Lemma sorted_same_length (L1 L2 : list Q) : StronglySorted Qlt L1 -> StronglySor
 Proof.
   intros S1 S2 E. apply Nat.le_antisymm; apply NoDup_incl_length; try (now apply sorted_nodup); intros v Hv; now apply E.
 Qed.
+
+(* ---------- the two readings of a case predicate ---------- *)
+(* [G E A P]: the meaning of a group with exact comparison E, admissible-set comparison A and
+   reading P of E;  [Lw amb P]: the meaning of a law P on observed values that a borderline
+   group (amb) excuses.  Verdict code 0: G_exact, L_exact; code 1: G_border, L_border. *)
+Definition G_exact (E A : bool) (P : Prop) : Prop := P.
+Definition L_exact (amb : bool) (P : Prop) : Prop := P.
+Definition G_border (E A : bool) (P : Prop) : Prop := P \/ (E = false /\ A = true).
+Definition L_border (amb : bool) (P : Prop) : Prop := P \/ amb = true.
+Definition is_found (r : flres) : bool := match r with FL_ok _ => true | _ => false end.
